@@ -106,6 +106,15 @@ def _build(case, recs, iso):
             h.add_edges(es)
     else:
         h = DirectedHypergraph(weighted=weighted)
+        if len(es) % 2:
+            # the nodes declared first, in ONE bulk call (their per-node tables must be
+            # independent of each other), the hyperedges afterwards
+            first = []
+            for s_, t_ in es:
+                for n in list(s_) + list(t_):
+                    if n not in first:
+                        first.append(n)
+            h.add_nodes(first + [n for n in iso if n not in first])
         for e, w in zip(es, ws):
             if weighted:
                 h.add_edge(e, weight=w)
@@ -215,6 +224,16 @@ def check_signature(case, ctx):
         % (what, vec.sum(), len(inside), bound)), key="sum")
     ctx.nontrivial(len(exp) >= 2 and len(inside) >= 3)
     ctx.trace = {"edges": _show(keys), "M": M, "expected": sorted(exp.items())}
+    if M is not None and keys and len(keys) % 2:
+        # the same object emptied by clear(): with an explicit bound every cell is 0 (a listing
+        # memoised for the bound must not outlive the hyperedges)
+        h.clear()
+        vec = np.asarray(hyperedge_signature_vector(h, max_hyperedge_size=M))
+        require(vec.shape == ((M - 1) ** 2,) and not vec.any(), lambda: (
+            "hyperedge_signature_vector(max_hyperedge_size=%s) after clear(): %r, expected %d "
+            "zeros (the hyperedges before clear() were %s)"
+            % (M, vec.tolist(), (M - 1) ** 2, _show(keys))), key="after-clear")
+        ctx.label("asked_again_after_clear")
 
 
 # --------------------------------------------------------------------------
